@@ -131,7 +131,7 @@ func c19Sig(o *rt.Outcome) string {
 
 func c19(ctx *core.Ctx) {
 	quietLogs()
-	ctx.Rule("generated configurations (route table on the router's full template fragment, recording filters at all three levels labelled with their route/service, a filter writing a per-request attribute and a per-request key into PathParameters(), a HandleWithFilter handler, handlers that read the raw request body, an echo route reading gzip-encoded entities that arrive in small slices, 0-5 extra container filters, CORS filter with configured or computed methods, OPTIONS filter, content encoding with the sync.Pool or a bounded(1,1) compressor provider, handlers writing raw bytes or negotiated entities, streaming handlers that Flush their first chunk, handlers switching PrettyPrint off for their own entity; both routers; Dispatch or ServeHTTP). For each request of a multiset of 40 (hits, near misses, adversarial, malformed Accept, CORS actual and preflight requests for different URLs, Accept-Encoding) the reference is the answer of a FRESH container to that request alone through the same entry point. Then (a) a 200-request sequential history in random order with repetitions, every 5th step preceded by the same request from a client whose connection fails on every body write, (b) batches released together from 16 (now and then 70) goroutines, (c) the sequential history again with trace logging on: status, all headers, decoded body, path parameters, selected route and attributes seen by every filter/handler must equal the reference. Race detector on. Non-trivial = a compared response of a request that ran at least one filter or handler; distinct by (configuration shape, phase, outcome class).")
+	ctx.Rule("generated configurations (route table on the router's full template fragment, recording filters at all three levels labelled with their route/service, a filter writing a per-request attribute and a per-request key into PathParameters(), a HandleWithFilter handler, handlers that read the raw request body, an echo route reading gzip-encoded entities that arrive in small slices, 0-5 extra container filters, CORS filter with configured or computed methods, OPTIONS filter, content encoding with the sync.Pool or a bounded(1,1) compressor provider, handlers writing raw bytes or negotiated entities, streaming handlers that Flush their first chunk, handlers switching PrettyPrint off for their own entity; both routers; Dispatch or ServeHTTP). For each request of a multiset of 40 (hits, near misses, adversarial, a parameter-less resource in two representations each way asked for with matching and non-matching media headers, malformed Accept, CORS actual and preflight requests for different URLs, Accept-Encoding) the reference is the answer of a FRESH container to that request alone through the same entry point. Then (a) a 200-request sequential history in random order with repetitions, every 5th step preceded by the same request from a client whose connection fails on every body write, (b) batches released together from 16 (now and then 70) goroutines, (c) the sequential history again with trace logging on: status, all headers, decoded body, path parameters, selected route and attributes seen by every filter/handler must equal the reference. Race detector on. Non-trivial = a compared response of a request that ran at least one filter or handler; distinct by (configuration shape, phase, outcome class).")
 	ctx.Assume("the reference is per (request, entry point): ServeHTTP answers unregistered prefixes from net/http's mux")
 	defer restful.EnableTracing(false)
 	defer restful.SetCompressorProvider(restful.NewSyncPoolCompessors())
@@ -158,6 +158,20 @@ func c19(ctx *core.Ctx) {
 		o := fullGenOpts(cf.Router)
 		o.StarMedia = false
 		t := rt.GenTable(r, o)
+		// a resource on a parameter-less path in two representations each way: the same method and path select another
+		// route, or none, depending on the media headers alone
+		{
+			lit := rt.SvcSpec{ID: len(t.Svcs), Root: rt.Tmpl{{Kind: rt.Lit, Lit: "lit19"}}}
+			id0 := 9000
+			doc := rt.Tmpl{{Kind: rt.Lit, Lit: "doc"}}
+			lit.Routes = []rt.RouteSpec{
+				{ID: id0, Method: "GET", Path: doc, Produces: []string{restful.MIME_JSON}},
+				{ID: id0 + 1, Method: "GET", Path: doc, Produces: []string{restful.MIME_XML}},
+				{ID: id0 + 2, Method: "POST", Path: doc, Consumes: []string{restful.MIME_JSON}},
+				{ID: id0 + 3, Method: "POST", Path: doc, Consumes: []string{restful.MIME_XML}},
+			}
+			t.Svcs = append(t.Svcs, lit)
+		}
 		// one route that can negotiate between two registered representations
 		neg := &t.Svcs[0].Routes[0]
 		neg.Method, neg.Produces, neg.Consumes, neg.Conds, neg.NoCT = "GET", []string{restful.MIME_JSON, restful.MIME_XML}, nil, nil, nil
@@ -167,7 +181,7 @@ func c19(ctx *core.Ctx) {
 			neg.Enc = 2
 		}
 		// and one that produces a single representation (whatever the Accept header looks like, the answer must be one and the same)
-		lastSvc := &t.Svcs[len(t.Svcs)-1]
+		lastSvc := &t.Svcs[len(t.Svcs)-2]
 		neg1 := &lastSvc.Routes[len(lastSvc.Routes)-1]
 		if neg1 != neg {
 			neg1.Method, neg1.Produces, neg1.Consumes, neg1.Conds, neg1.NoCT = "GET", []string{restful.MIME_XML}, nil, nil, nil
@@ -253,6 +267,12 @@ func c19(ctx *core.Ctx) {
 				}
 				req.HasAcc, req.Accept = true, r.Pick([]string{restful.MIME_JSON, restful.MIME_XML})
 				req.Hdr["X-Do"] = "pretty-off"
+			}
+			switch q {
+			case 11, 13, 21:
+				req = rt.Req{Method: "GET", Path: "/lit19/doc", HasAcc: true, Accept: map[int]string{11: restful.MIME_JSON, 13: restful.MIME_XML, 21: "text/plain"}[q], Hdr: map[string]string{}, Class: "literal-twins"}
+			case 29, 35, 37:
+				req = rt.Req{Method: "POST", Path: "/lit19/doc", HasCT: true, CT: map[int]string{29: restful.MIME_JSON, 35: restful.MIME_XML, 37: "text/plain"}[q], BodyLen: 4, Hdr: map[string]string{}, Class: "literal-twins"}
 			}
 			req.Hdr["X-Req"] = fmt.Sprintf("q%d", q)
 			reqs = append(reqs, req)
